@@ -166,43 +166,76 @@ def tokenize(name):
     return sections
 
 
+# bibtex.web, "von_token_found": the 13 accented / foreign characters whose control sequence alone decides the case
+FOREIGN = {"i": 0, "j": 0, "oe": 0, "OE": 1, "ae": 0, "AE": 1, "aa": 0, "AA": 1, "o": 0, "O": 1, "l": 0, "L": 1, "ss": 0}
+
+
 def case(word):
-    """1 upper, 0 lower, -1 caseless (BibTeX: first letter at depth 0, or first letter inside a
-    special character '{\\' after its control sequence; other brace groups are caseless)."""
-    i, n, depth = 0, len(word), 0
+    """1 upper, 0 lower, -1 caseless.  Transcription of BibTeX's von_token_found (bibtex.web):
+    scan the word left to right; a letter at brace depth 0 decides; a '{' at depth 0 directly followed by a
+    backslash opens a *special character*: its control sequence (the letters after the backslash) is looked up
+    in the table of foreign characters (decides if found), otherwise the first letter up to the end of the
+    special character decides, groups nested inside it included; any other brace group is skipped whole,
+    whatever it contains.  The library's dialect adds backslash escapes: an escaped character is never a brace,
+    an escaped letter is a letter (at depth 0 and inside a special character)."""
+    i, n = 0, len(word)
+
+    def lettercase(ch):
+        return 1 if ch.isupper() else 0
+
     while i < n:
         c = word[i]
-        if c == "\\" and depth == 0:
-            # an escaped character: only its letter-ness matters (it is never a brace)
+        if c == "\\":
             if i + 1 < n and word[i + 1].isalpha():
-                return 1 if word[i + 1].isupper() else 0
+                return lettercase(word[i + 1])
             i += 2
             continue
         if c == "{":
-            if depth == 0 and i + 1 < n and word[i + 1] == "\\":
+            if i + 1 < n and word[i + 1] == "\\":
+                # special character
                 j = i + 2
-                if j < n and word[j].isalpha():
-                    while j < n and word[j].isalpha():
-                        j += 1
-                else:
-                    j += 1
+                k = j
+                while k < n and word[k].isalpha():
+                    k += 1
+                if word[j:k] in FOREIGN:
+                    return FOREIGN[word[j:k]]
+                if k == j:
+                    k = j + 1          # a one-character, non-letter control sequence such as \' or \"
                 d = 1
+                j = k
                 while j < n and d > 0:
                     ch = word[j]
+                    if ch == "\\":
+                        if j + 1 < n and word[j + 1].isalpha():
+                            return lettercase(word[j + 1])
+                        j += 2
+                        continue
                     if ch == "{":
                         d += 1
                     elif ch == "}":
                         d -= 1
                     elif ch.isalpha():
-                        return 1 if ch.isupper() else 0
+                        return lettercase(ch)
                     j += 1
                 i = j
                 continue
-            depth += 1
-        elif c == "}":
-            depth -= 1
-        elif depth == 0 and c.isalpha():
-            return 1 if c.isupper() else 0
+            # a plain group: skipped whole
+            d = 1
+            j = i + 1
+            while j < n and d > 0:
+                ch = word[j]
+                if ch == "\\":
+                    j += 2
+                    continue
+                if ch == "{":
+                    d += 1
+                elif ch == "}":
+                    d -= 1
+                j += 1
+            i = j
+            continue
+        if c.isalpha():
+            return lettercase(c)
         i += 1
     return -1
 
